@@ -858,6 +858,13 @@ class CE:
                     "print": lambda *a, **k: None, "next": next, "iter": iter, "format": format, "bin": bin, "divmod": divmod}
             if name == "isinstance":
                 return self.isinstance(args[0], e.args[1], f)
+            if name == "getattr" and len(args) in (2, 3) and isinstance(args[1], str):
+                try:
+                    return self.getattr(args[0], args[1], e, f)
+                except CERaise:
+                    if len(args) == 3:
+                        return args[2]
+                    raise
             if name == "type" and len(args) == 1:
                 v = args[0]
                 if isinstance(v, Instance):
